@@ -82,7 +82,9 @@ class Weighting(object):
 
     def __hash__(self):
         """Return ``hash(self)``."""
-        return hash((type(self), self.impl, self.exponent))
+        # The type is not part of the hash: weightings of different subclasses
+        # can compare equal (see ``__eq__``)
+        return hash((self.impl, self.exponent))
 
     def equiv(self, other):
         """Test if ``other`` is an equivalent weighting.
